@@ -414,6 +414,20 @@ func readRegenExport(path string) ([]regenCase, error) {
 	return out, sc.Err()
 }
 
+// staleNest is Regen.tla's StaleNest on a realised history: the run is made over the complete output of sources
+// that declared deriveKeys (through the nested call or through the plain one) for another map type than the
+// current sources use in deriveSort(deriveKeys(m)). The implementation-shaped layer of the specification predicts
+// the defect for exactly these histories; the finding is keyed by this class, not by one sampled history.
+func staleNest(rc *regenCase) bool {
+	return rc.Disk == "output" && rc.V2.has("nest") && (rc.V1.has("nest") || rc.V1.has("keys")) && rc.V1.Mty != rc.V2.Mty
+}
+
+func staleReason(why string) bool {
+	return strings.Contains(why, "differs from the one generated from scratch") || strings.Contains(why, "does not type-check after one regeneration run")
+}
+
+const staleNestClass = "sources with deriveSort(deriveKeys(m)) after m was retyped, disk=output of sources that declared deriveKeys for the old map type (StaleNest of Regen.tla): outer call typed from the stale declaration"
+
 // subCases enumerates the sub-histories of rc (fewer call sites in v1, fewer edits), smallest first.
 func subCases(rc *regenCase) []*regenCase {
 	apply := func(v regenVersion, ops []map[string]string) (regenVersion, bool) {
@@ -734,6 +748,10 @@ func checkC07(c *core.Ctx) error {
 					dch <- done{j.why, "sources with deriveSort(deriveKeys(m)), disk=trunc(midFunc) cut inside the old declaration of the inner function: outer call typed '()'", j.r}
 					continue
 				}
+				if staleNest(j.r.rc) && staleReason(j.why) {
+					dch <- done{j.why, staleNestClass, j.r}
+					continue
+				}
 				for _, sub := range subCases(j.r.rc) {
 					f, err := failsWith(chk, sub, j.why)
 					if err != nil {
@@ -746,6 +764,9 @@ func checkC07(c *core.Ctx) error {
 					}
 					if f {
 						wit = sub.String()
+						if staleNest(sub) && staleReason(j.why) {
+							wit = staleNestClass
+						}
 						break
 					}
 				}
